@@ -10,6 +10,14 @@
 // tampered / truncated / extended / wrong-key / garbage input ⇒ error and no data; nonces never repeat and equal
 // plaintexts never give equal ciphertexts; only the creating passphrase derives; tampered stored parameters are
 // rejected; parameters round-trip byte for byte.
+//
+// `encpar k=<id> len=<n> g=<goroutines> per=<count>` runs g goroutines × per calls of CryptoKey.Encrypt of ONE
+// plaintext under ONE key CONCURRENTLY (started together behind a barrier) on the real code: all g·per ciphertexts
+// and all g·per 24-byte nonces must be pairwise distinct ("encrypting equal plaintexts twice never yields equal
+// ciphertexts" for every schedule, not only the sequential one).  Reply `ok n=<total> distinct=<distinct cts>`.
+// Every real nonce (sequential ops too) additionally goes through a structural freshness check: no two nonces of a
+// run may share their first 16 bytes or any aligned 8-byte word (chance < N²·2⁻⁶³ for 24 fresh random bytes) — a
+// "random prefix once + message counter" nonce is reported even when no race manifests.
 package crypto
 
 import (
@@ -26,6 +34,7 @@ import (
 	"path/filepath"
 	"strconv"
 	"strings"
+	"sync"
 	"time"
 
 	"github.com/btcsuite/btcd/btcutil/hdkeychain"
@@ -132,6 +141,29 @@ func (g *gen) bytes(n int) []byte {
 	b := make([]byte, n)
 	g.rng.Read(b)
 	return b
+}
+
+// parCase: concurrent encryptions of one plaintext under one key (op `encpar`), framed by sequential ones whose
+// nonces take part in the same distinctness / freshness checks.
+func (g *gen) parCase(goroutines, per int) {
+	k := 1 + g.rng.Intn(5)
+	L := g.rng.Intn(48)
+	pat := g.rng.Intn(256)
+	ops := []string{
+		fmt.Sprintf("enc k=%d len=%d pat=%d", k, L, pat),
+		fmt.Sprintf("encpar k=%d len=%d pat=%d g=%d per=%d", k, L, pat, goroutines, per),
+		fmt.Sprintf("enc k=%d len=%d pat=%d", k, L, pat),
+		"cmp a=0 b=1", fmt.Sprintf("dec k=%d ct=0", k), fmt.Sprintf("dec k=%d ct=1", k),
+		// malformed variants: answered bad-op by both sides
+		fmt.Sprintf("encpar k=%d len=%d pat=%d g=0 per=%d", k, L, pat, per),
+		fmt.Sprintf("encpar k=%d len=%d pat=%d g=%d per=0", k, L, pat, goroutines),
+		fmt.Sprintf("encpar k=%d len=%d pat=%d g=%d", k, L, pat, goroutines),
+		fmt.Sprintf("encpar k=%d len=%d pat=%d g=65 per=1", k, L, pat),
+		fmt.Sprintf("encpar k=%d len=5000 pat=%d g=2 per=2", k, pat),
+		fmt.Sprintf("encpar k=%d len=%d pat=%d g=64 per=100000", k, L, pat),
+		fmt.Sprintf("encpar k=x len=%d pat=%d g=2 per=2", L, pat),
+	}
+	g.add("concurrent", ops)
 }
 
 func (g *gen) garbageCase(maxLen int) {
@@ -499,6 +531,15 @@ func (eng) Generate(rng *rand.Rand, tier string) []core.Case {
 	for _, L := range []int{0, 1, 15, 16, 17, 31, 32, 33, 63, 64, 65} {
 		g.cipherCase(L, "sk")
 	}
+	// concurrent Encrypt calls (8 × 20 000 showed duplicates in every run of the C17-5 demo, also with GOMAXPROCS=1)
+	g.parCase(8, 20000)
+	g.parCase(16, 10000)
+	g.parCase(2+rng.Intn(7), 20000)
+	if thorough {
+		for i := 0; i < 6; i++ {
+			g.parCase(2+rng.Intn(15), 30000)
+		}
+	}
 	g.garbageCase(80)
 	if thorough {
 		for i := 0; i < 20; i++ {
@@ -564,7 +605,10 @@ type runner struct {
 	keys   map[string]*snacl.CryptoKey
 	cts    []ctEnt
 	nonces map[[24]byte]bool
-	sks    map[int]*skEnt
+	// structural freshness of the real nonces: first 16 bytes and the three aligned 8-byte words seen so far
+	pre16 map[[16]byte]bool
+	word8 [3]map[[8]byte]bool
+	sks   map[int]*skEnt
 
 	dir     string
 	db      walletdb.DB
@@ -577,8 +621,41 @@ type runner struct {
 	// what each key type of the current manager must be able to open (oracle bookkeeping)
 }
 
-func (eng) NewRunner() core.Runner {
-	return &runner{keys: map[string]*snacl.CryptoKey{}, nonces: map[[24]byte]bool{}, sks: map[int]*skEnt{}}
+func freshRunner() runner {
+	return runner{keys: map[string]*snacl.CryptoKey{}, nonces: map[[24]byte]bool{}, sks: map[int]*skEnt{},
+		pre16: map[[16]byte]bool{}, word8: [3]map[[8]byte]bool{{}, {}, {}}}
+}
+
+func (eng) NewRunner() core.Runner { r := freshRunner(); return &r }
+
+// noteNonce records a real nonce and evaluates the freshness checks on it. reuse: the full 24 bytes were seen
+// before; notFresh: it shares its first 16 bytes or an aligned 8-byte word with an earlier nonce of the run.
+func (r *runner) noteNonce(ct []byte) (reuse bool, notFresh string) {
+	if len(ct) < 24 {
+		return false, ""
+	}
+	var n [24]byte
+	copy(n[:], ct)
+	reuse = r.nonces[n]
+	r.nonces[n] = true
+	if reuse {
+		return true, ""
+	}
+	var p [16]byte
+	copy(p[:], ct)
+	if r.pre16[p] {
+		notFresh = "the first 16 bytes of a nonce equal those of an earlier nonce"
+	}
+	r.pre16[p] = true
+	for w := 0; w < 3; w++ {
+		var x [8]byte
+		copy(x[:], ct[8*w:])
+		if r.word8[w][x] && notFresh == "" {
+			notFresh = fmt.Sprintf("bytes %d..%d of a nonce equal those of an earlier nonce", 8*w, 8*w+7)
+		}
+		r.word8[w][x] = true
+	}
+	return false, notFresh
 }
 
 func (r *runner) closeMgr() {
@@ -736,13 +813,10 @@ func (r *runner) recordCt(ct, pt []byte, key [32]byte, isMgr bool) (string, stri
 	if len(ct) != len(pt)+snacl.NonceSize+snacl.Overhead {
 		v = append(v, viol("encrypt.length", fmt.Sprintf("ciphertext length %d for plaintext length %d", len(ct), len(pt))))
 	}
-	if len(ct) >= 24 {
-		var n [24]byte
-		copy(n[:], ct)
-		if r.nonces[n] {
-			v = append(v, viol("encrypt.nonce-reuse", "nonce repeated within one run"))
-		}
-		r.nonces[n] = true
+	if reuse, notFresh := r.noteNonce(ct); reuse {
+		v = append(v, viol("encrypt.nonce-reuse", "nonce repeated within one run"))
+	} else if notFresh != "" {
+		v = append(v, viol("encrypt.nonce-not-fresh-random", notFresh+" (24 fresh random bytes per call do that with probability < 2^-60: the nonce is not drawn afresh)"))
 	}
 	for _, e := range r.cts {
 		if bytes.Equal(e.ct, ct) {
@@ -853,7 +927,7 @@ func (r *runner) Exec(op string) (string, string) {
 			return "bad-op", ""
 		}
 		r.closeMgr()
-		*r = runner{keys: map[string]*snacl.CryptoKey{}, nonces: map[[24]byte]bool{}, sks: map[int]*skEnt{}}
+		*r = freshRunner()
 		return "ok", ""
 
 	case "enc":
@@ -869,6 +943,17 @@ func (r *runner) Exec(op string) (string, string) {
 			return errKind(err), ""
 		}
 		return r.recordCt(ct, pt, *k, false)
+
+	case "encpar":
+		k, ok1 := r.key(kv["k"])
+		l, ok2 := atoi(kv, "len")
+		pat, ok3 := atoi(kv, "pat")
+		gn, ok4 := atoi(kv, "g")
+		per, ok5 := atoi(kv, "per")
+		if !ok1 || !ok2 || !ok3 || !ok4 || !ok5 || gn < 1 || gn > 64 || per < 1 || per > 100000 || gn*per > 1000000 || l > 4096 {
+			return "bad-op", ""
+		}
+		return r.encPar(k, plain(l, pat), gn, per)
 
 	case "dec":
 		k, ok1 := r.key(kv["k"])
@@ -1293,6 +1378,80 @@ func (r *runner) Exec(op string) (string, string) {
 		return reply, v
 	}
 	return "bad-op", ""
+}
+
+// encPar: gn goroutines, released together, each sealing the SAME plaintext `per` times under the SAME key.
+// Oracle (the property's sentence for concurrent callers): all ciphertexts pairwise distinct, all nonces pairwise
+// distinct (also against the nonces of the sequential ops of the run), every ciphertext well-formed.
+func (r *runner) encPar(k *snacl.CryptoKey, pt []byte, gn, per int) (string, string) {
+	outs := make([][][]byte, gn)
+	errs := make([]error, gn)
+	start := make(chan struct{})
+	var wg sync.WaitGroup
+	for g := 0; g < gn; g++ {
+		wg.Add(1)
+		go func(g int) {
+			defer wg.Done()
+			res := make([][]byte, 0, per)
+			<-start
+			for i := 0; i < per; i++ {
+				ct, err := k.Encrypt(pt)
+				if err != nil {
+					errs[g] = err
+					break
+				}
+				res = append(res, ct)
+			}
+			outs[g] = res
+		}(g)
+	}
+	close(start)
+	wg.Wait()
+	for _, err := range errs {
+		if err != nil {
+			return errKind(err), ""
+		}
+	}
+	total := gn * per
+	seen := make(map[string]struct{}, total)
+	dupCt, dupNonce, badLen, notFreshN := 0, 0, 0, 0
+	notFreshText := ""
+	for _, res := range outs {
+		for _, ct := range res {
+			if len(ct) != len(pt)+snacl.NonceSize+snacl.Overhead {
+				badLen++
+			}
+			if _, dup := seen[string(ct)]; dup {
+				dupCt++
+			}
+			seen[string(ct)] = struct{}{}
+			reuse, nf := r.noteNonce(ct)
+			if reuse {
+				dupNonce++
+			}
+			if nf != "" {
+				notFreshN++
+				notFreshText = nf
+			}
+		}
+	}
+	var v []string
+	if dupCt > 0 || dupNonce > 0 {
+		v = append(v, viol("encrypt.nonce-reuse-concurrent", fmt.Sprintf(
+			"%d goroutines x %d concurrent Encrypt calls of one %d-byte plaintext under one key: %d of %d ciphertexts are byte-for-byte repeats, %d nonces repeated",
+			gn, per, len(pt), dupCt, total, dupNonce)))
+	}
+	if notFreshN > 0 {
+		v = append(v, viol("encrypt.nonce-not-fresh-random", fmt.Sprintf("%d of %d nonces: %s", notFreshN, total, notFreshText)))
+	}
+	if badLen > 0 {
+		v = append(v, viol("encrypt.length", fmt.Sprintf("%d of %d concurrent ciphertexts have the wrong length", badLen, total)))
+	}
+	// one sample must still decrypt (the concurrent calls did not corrupt each other)
+	if out, err := k.Decrypt(append([]byte{}, outs[gn-1][per-1]...)); err != nil || !bytes.Equal(out, pt) {
+		v = append(v, viol("decrypt.roundtrip", "a ciphertext produced by a concurrent Encrypt call does not decrypt to the plaintext"))
+	}
+	return fmt.Sprintf("ok n=%d distinct=%d", total, len(seen)), strings.Join(v, "; ")
 }
 
 func joinV(a, b string) string {
